@@ -42,6 +42,9 @@ pub enum Call {
     Clock,
     /// flock(2): advisory locks (std's File::lock / try_lock)
     Flock,
+    /// getenv(3) of a name outside the usual ones (see `usual_env_name`): a configuration knob
+    /// the code under test reads; the name is recorded as the event's path
+    Getenv,
 }
 
 impl Call {
@@ -64,6 +67,7 @@ impl Call {
             Call::Flock => "flock",
             Call::Getrandom => "getrandom",
             Call::Clock => "clock",
+            Call::Getenv => "getenv",
         }
     }
     pub fn from_name(s: &str) -> Option<Call> {
@@ -85,6 +89,7 @@ impl Call {
             "flock" => Call::Flock,
             "getrandom" => Call::Getrandom,
             "clock" => Call::Clock,
+            "getenv" => Call::Getenv,
             _ => return None,
         })
     }
@@ -960,6 +965,55 @@ pub unsafe extern "C" fn getrandom(buf: *mut c_void, len: size_t, flags: c_uint)
     }
     record(st, tid, Call::Getrandom, "<random>", len as i64, len as i64, 0, -1);
     len as ssize_t
+}
+
+extern "C" {
+    static environ: *const *const c_char;
+}
+
+/// Names every program's runtime and helper crates ask for; anything else the code under test
+/// asks for is a knob of its own.
+pub fn usual_env_name(n: &[u8]) -> bool {
+    const PRE: &[&[u8]] = &[b"RUST", b"HOME", b"XDG_", b"TMP", b"TEMP", b"PATH", b"LANG", b"LC_", b"TERM", b"NO_COLOR", b"CLICOLOR", b"COLUMNS", b"LINES", b"LD_", b"MALLOC_", b"GLIBC_", b"TZ", b"SIMLIBC", b"VERIF", b"USER", b"LOGNAME", b"SHELL", b"PWD", b"CARGO", b"COLORTERM", b"FORCE_COLOR"];
+    PRE.iter().any(|p| n.starts_with(p))
+}
+
+/// getenv by an own walk over `environ` (values are whatever the process was started with or
+/// set later); a query for a name outside the usual ones is recorded - the engines then run the
+/// scenario again with that knob set.
+#[no_mangle]
+pub unsafe extern "C" fn getenv(name: *const c_char) -> *mut c_char {
+    if name.is_null() {
+        return std::ptr::null_mut();
+    }
+    let n = std::ffi::CStr::from_ptr(name).to_bytes();
+    let mut found: *mut c_char = std::ptr::null_mut();
+    let mut p = environ;
+    if !p.is_null() && !n.is_empty() {
+        while !(*p).is_null() {
+            let e = std::ffi::CStr::from_ptr(*p).to_bytes();
+            if e.len() > n.len() && e[n.len()] == b'=' && &e[..n.len()] == n {
+                found = (*p).add(n.len() + 1) as *mut c_char;
+                break;
+            }
+            p = p.add(1);
+        }
+    }
+    if usual_env_name(n) {
+        return found;
+    }
+    let tid = match active_tid() {
+        Some(t) => t,
+        None => return found,
+    };
+    maybe_init();
+    let _g = BypassGuard::new();
+    let mut g = SIM.lock().unwrap_or_else(|e| e.into_inner());
+    if let Some(st) = g.as_mut() {
+        let nm = String::from_utf8_lossy(n).into_owned();
+        record(st, tid, Call::Getenv, &nm, 0, if found.is_null() { 0 } else { 1 }, 0, -1);
+    }
+    found
 }
 
 /// Process and thread ids are a source of nondeterminism too (temporary file names are
